@@ -222,7 +222,15 @@ func runC09(c *runCtx) {
 	res.sample(map[string]any{"probe": "fill/put/get", "sites": len(probed)})
 
 	// ownership: held results are not modified by later library activity / by releasing other trees
-	corpus := builtinCorpus
+	corpus := append([]string{}, builtinCorpus...)
+	{
+		cg := newSQLGen(c.rng.Fork())
+		for i := 0; i < c.n(150, 2000); i++ {
+			corpus = append(corpus, cg.Statement())
+		}
+		corpus = append(corpus, "SELECT a FROM t WHERE b IS NULL AND c IS NOT NULL", "SELECT a[1], b[2:3], ARRAY[1, 2], (x, y), CAST(z AS INT), EXTRACT(YEAR FROM d) FROM t WHERE e IS NULL",
+			"SELECT CASE WHEN a IS NULL THEN 1 END FROM t WHERE b BETWEEN 1 AND 2 OR c IN (1, 2) OR d LIKE 'x' OR EXISTS (SELECT 1)")
+	}
 	rounds := c.n(300, 5000)
 	for i := 0; i < rounds; i++ {
 		a := corpus[c.rng.Intn(len(corpus))]
@@ -281,10 +289,37 @@ func runC09(c *runCtx) {
 			res.fail("held-tree-modified", "a tree held by the caller changed when another statement was parsed",
 				map[string]any{"history": acts, "held": a1, "then": a2}, nil)
 		}
-		ast.ReleaseAST(t1)
 		if e2 == nil && t2 != t1 {
+			// no node of one tree is a node of the other
+			addrs := map[uintptr]string{}
+			for _, r := range reachableNodes(t1) {
+				if r.addr != 0 {
+					addrs[r.addr] = r.typ
+				}
+			}
+			for _, r := range reachableNodes(t2) {
+				if ty, ok := addrs[r.addr]; ok && r.addr != 0 && ty == r.typ {
+					res.fail("two-live-trees-share-node:"+r.typ, "two trees held at the same time share a node object",
+						map[string]any{"history": acts, "first": a1, "second": a2, "node": truncate(dumpShallow(r.val, 6), 200)}, nil)
+					break
+				}
+			}
+			// releasing one leaves the other as it was
 			ast.ReleaseAST(t2)
+			if dumpNode(t1) != s1 {
+				res.fail("held-tree-modified-by-release", "a tree held by the caller changed when another tree was released",
+					map[string]any{"history": acts, "held": a1, "released": a2}, nil)
+			}
+			// … and so does whatever is parsed next out of the pools the release filled
+			if t3, e3 := gosqlx.Parse(corpus[c.rng.Intn(len(corpus))]); e3 == nil {
+				if dumpNode(t1) != s1 {
+					res.fail("held-tree-modified", "a tree held by the caller changed when another statement was parsed after a release",
+						map[string]any{"history": acts, "held": a1, "released": a2}, nil)
+				}
+				ast.ReleaseAST(t3)
+			}
 		}
+		ast.ReleaseAST(t1)
 	}
 	// tokens and comments handed out by a tokenizer must survive its reuse
 	tk, _ := tokenizer.New()
